@@ -651,10 +651,24 @@ example (a : Addr) (m : Nat) (tcp : Bool) : Inv (enableLatch (init a m tcp)) [] 
 
 example : (run (enableLatch (init ⟨0, 0⟩ 3 false)) [.pkt ⟨1, 5001⟩ (.rtp 7 1 0 false)]).remote = ⟨1, 5001⟩ := by decide
 
-/-- declared reading (see NOTES/C18.md, propcfg assumption 2): while the latch is OPEN a
-selected-pair update moves the destination to an address that never sent RTP — in RTP mode such an
-update can be caused by an unauthenticated STUN binding request from the pair's port on another IP
-(`ice/mod.rs`); once latched the same update is refused (`latched_sticky`). -/
+/-- **move_by_pair_update_witness** (known finding `pc:move:stun-request-moved-open-destination`): clause 1
+read literally — "the RTP send address can only move to an address from which RTP carrying the expected
+SSRC was received" — is FALSE for selected-pair updates while the latch is open: the destination moves
+to the pair address, which need not be in the window. In RTP mode such an update is caused by an
+unauthenticated STUN binding request from the pair's port on another IP (`ice/mod.rs`). What does
+hold is `move_only_to_legit_source` (clause 1 for every packet-caused move; pair updates only while
+open and only to the pair address) and `latched_sticky` (refused once latched). -/
+theorem move_by_pair_update_witness :
+    ¬ (∀ (s : St) (win : List Addr) (a : Addr), Inv s win →
+        (step s (.pair a)).remote = s.remote ∨ (step s (.pair a)).remote ∈ win) := by
+  intro h
+  have := h (run (init ⟨9, 5009⟩ 6 false) [.ssrc 7, .enable]) [] ⟨3, 5009⟩
+    ⟨by decide, by
+      intro p hp c hc
+      have hp' : (run (init ⟨9, 5009⟩ 6 false) [.ssrc 7, .enable]).prob = some ⟨[], 0, 6⟩ := by decide
+      rw [hp'] at hp; simp at hp; subst hp; simp at hc⟩
+  revert this; decide
+
 example :
     let s := run (init ⟨9, 5009⟩ 6 false) [.ssrc 7, .enable]
     (step s (.pair ⟨3, 5009⟩)).remote = ⟨3, 5009⟩ ∧
